@@ -20,8 +20,9 @@ KINDS = ('pass', 'panic', 'eager_panic')
 
 
 class Shape:
-    def __init__(self, fbg=1, rbg=0, steps=2, before=True, after=True, rule=False, retries=None):
+    def __init__(self, fbg=1, rbg=0, steps=2, before=True, after=True, rule=False, retries=None, delay=False):
         self.fbg, self.rbg, self.steps, self.before, self.after, self.rule, self.retries = fbg, rbg, steps, before, after, rule or rbg > 0, retries
+        self.delay = delay          # the retry options carry a delay (`after`)
 
     def step_names(self):
         return ['fb%d' % i for i in range(self.fbg)] + ['rb%d' % i for i in range(self.rbg)] + ['s%d' % i for i in range(self.steps)]
@@ -30,7 +31,7 @@ class Shape:
         return 'fbg=%d rbg=%d steps=%d before=%s after=%s retries=%s' % (self.fbg, self.rbg, self.steps, self.before, self.after, self.retries)
 
 
-def simulate(chk, shape, pend=0, max_polls=60):
+def simulate(chk, shape, pend=0, max_polls=60, pair=False):
     prog = chk.prog
     t = prog.tables
     ix = events.CukeIdx(prog)
@@ -70,7 +71,8 @@ def simulate(chk, shape, pend=0, max_polls=60):
             return Adt('Result<Option<..>, AmbiguousMatchError>', {(1, 0): Adt('step::AmbiguousMatchError', {(None, 0): Obj('vec', items=(), ty='Vec<..>')}, None, 'ambiguous.' + n)}, 1)
         tup = Adt('(&Step<W>, CaptureLocations, Option<Location>, Context)', {
             (None, 0): Ref(Cell(Obj('stepfn', step=n)), ()), (None, 1): Obj('caps', step=n),
-            (None, 2): Adt('Option<step::Location>', {(1, 0): Obj('loc', step=n)}, 1), (None, 3): Obj('ctx', step=n)})
+            (None, 2): Adt('Option<step::Location>', {(1, 0): Obj('loc', step=n)}, 1),
+            (None, 3): Adt('step::Context', {(None, 0): tgt, (None, 1): Obj('vec', items=(), ty='Vec<(CaptureName, String)>')})})
         return Adt('Result<Option<..>, AmbiguousMatchError>', {(0, 0): Adt('Option<..>', {(1, 0): tup}, 1)}, 0)
     M.body_hooks[find_body.name] = find_hook
 
@@ -104,6 +106,10 @@ def simulate(chk, shape, pend=0, max_polls=60):
             if cell is not None:
                 cur = ex2.read_path(cell, path)
                 ex2.write_path(cell, path, cur.set(counter=cur.counter + 1))
+            if what == 'after':
+                ex2.env['after_hook_done_clock'] = M.tick(ex2)      # user code takes time: the model clock moves on
+        if what == 'after' and KINDS[k] != 'pass':
+            ex_.env['after_hook_done_clock'] = M.tick(ex_)
         return M.user_future(what, pend, KINDS[k], on_done=done)
 
     def opaque(ex_, f, args, dty, info):
@@ -169,38 +175,84 @@ def simulate(chk, shape, pend=0, max_polls=60):
             (None, EX.index('event_sender')): Lazy('UnboundedSender', 'event_sender'),
             (None, EX.index('finished_sender')): Lazy('UnboundedSender', 'finished_sender'),
             (None, EX.index('storage')): fv})
+        # fields a change adds to Executor: what its constructor would put there (known containers), else unconstrained
+        from mirsmt import tables as _T
+        eft = _T.field_types(prog.tables, 'Executor', 'runner/basic.rs') or {}
+        for i_, n_ in enumerate(EX):
+            if (None, i_) not in exv.fields:
+                dv_ = common.default_by_type(M, eft.get(n_, ''), 'executor.' + n_)
+                if dv_ is not None:
+                    exv = exv.with_field((None, i_), dv_)
         excell = Cell(exv, name='executor')
         if shape.retries is None:
             ret = Adt('Option<RetryOptions>', {}, 0)
         else:
             ret = Adt('Option<RetryOptions>', {(1, 0): Adt('runner::basic::RetryOptions', {
                 (None, six.RO['retries']): Adt('event::Retries', {(None, six.R['current']): bv(shape.retries[0]), (None, six.R['left']): bv(shape.retries[1])}),
-                (None, six.RO['after']): Adt('Option<std::time::Duration>', {}, 0)})}, 1)
+                (None, six.RO['after']): Adt('Option<std::time::Duration>', {(1, 0): z3.BitVec('retry.delay', 64)}, 1 if getattr(shape, 'delay', False) else 0)})}, 1)
         args = [None] * len(run_sc.params)
         args[rp['self']] = Ref(excell, ())
         args[rp['id']] = Lazy('ScenarioId', 'sid')
         args[rp['feature']] = fsrc
         args[rp['rule']] = Adt('Option<event::Source<gherkin::Rule>>', {(1, 0): rsrc}, 1 if shape.rule else 0)
         args[rp['scenario']] = ssrc
-        args[rp['scenario_ty']] = Adt('runner::basic::ScenarioType', {}, six.Ty['Concurrent'])
+        if 'scenario_ty' in rp:
+            args[rp['scenario_ty']] = Adt('runner::basic::ScenarioType', {}, six.Ty['Concurrent'])
         args[rp['retries']] = ret
         co = ex_.call_body(run_sc, args)
         cocell = Cell(co, name='run_scenario')
         pin = Adt('Pin<&mut coroutine>', {(None, 0): Ref(cocell, ())})
         cx = Ref(Cell(Lazy('Context', 'cx')), ())
         body = ex_.prog.poll_body(co.ty, ex_.coro_origin.get(co.ty))
+        pins = [pin]
+        if pair:
+            # a second attempt (another scenario of the same feature, same steps) polled in turns with the first one, the
+            # way execute() drives the members of its FuturesUnordered on one thread
+            ex_.env['panic_hook'] = 'outer'
+            args2 = list(args)
+            scen2 = Adt('gherkin::Scenario', {(None, S.index('steps')): Obj('vec', items=tuple(step_obj('s%d' % i) for i in range(shape.steps)), ty='Vec<Step>')}, None, 'scn2')
+            args2[rp['scenario']] = Adt('event::Source<gherkin::Scenario>', {(None, 0): Ref(Cell(scen2, name='scn2'), (), pid=bv(0x302))})
+            args2[rp['id']] = Lazy('ScenarioId', 'sid2')
+            co2 = ex_.call_body(run_sc, args2)
+            pins.append(Adt('Pin<&mut coroutine>', {(None, 0): Ref(Cell(co2, name='run_scenario2'), ())}))
         polls, escaped = 0, None
         try:
-            while polls < max_polls:
+            live = list(pins)
+            while polls < max_polls and live:
                 polls += 1
-                r = ex_.call_body(body, [pin, cx])
-                if ex_.branch(M.discr(ex_, r) == bv(0)):
-                    break
-            else:
+                for pn in list(live):
+                    r = ex_.call_body(body, [pn, cx])
+                    if ex_.branch(M.discr(ex_, r) == bv(0)):
+                        live.remove(pn)
+            if live:
                 raise PathEnd('loopbound', 'run_scenario not Ready after %d polls' % polls)
         except UserPanic as p:
             escaped = (p.payload, p.where)
-        return {'log': list(ex_.env.get('log', [])), 'polls': polls, 'escaped': escaped}
+        # a delayed retry: from which instant is the delay counted?  (the entry re-inserted into the storage carries it)
+        deadline_err = None
+        if getattr(shape, 'delay', False) and escaped is None and 'after_hook_done_clock' in ex_.env:
+            try:
+                mval = ex_.materialize(ex_.read_path(fv.fields[(None, six.F['scenarios'])].cell, ())).fields[(None, 0)]
+                for _, vec in mval.entries:
+                    for ent in M.seq_of(ex_, vec):
+                        ro = ex_.materialize(ex_.field_of(ex_.materialize(ent), None, 4, 'Option<RetryOptionsWithDeadline>'))
+                        if z3.simplify(M.discr(ex_, ro)).as_long() != 1:
+                            continue
+                        rod = ex_.materialize(ex_.field_of(ro, 1, 0, 'runner::basic::RetryOptionsWithDeadline'))
+                        aft = ex_.materialize(ex_.field_of(rod, None, 1, 'Option<(Duration, Option<Instant>)>'))
+                        if z3.simplify(M.discr(ex_, aft)).as_long() != 1:
+                            continue
+                        tup = ex_.materialize(ex_.field_of(aft, 1, 0, '(Duration, Option<Instant>)'))
+                        oi = ex_.materialize(ex_.field_of(tup, None, 1, 'Option<std::time::Instant>'))
+                        if z3.simplify(M.discr(ex_, oi)).as_long() != 1:
+                            deadline_err = 'a delayed retry was re-inserted without an instant to count the delay from'
+                            continue
+                        inst = ex_.materialize(ex_.field_of(oi, 1, 0, 'std::time::Instant'), 'std::time::Instant')
+                        if ex_.check(z3.ULT(inst, ex_.env['after_hook_done_clock'])):
+                            deadline_err = 'the retry delay is counted from an instant BEFORE the after hook of the failed attempt ended (the attempt was still running)'
+            except (Inconclusive, AttributeError, KeyError) as e_:
+                deadline_err = None
+        return {'log': list(ex_.env.get('log', [])), 'polls': polls, 'escaped': escaped, 'deadline_err': deadline_err, 'hook_end': ex_.env.get('panic_hook')}
     out = []
 
     def on_end(ex_, rec):
@@ -421,6 +473,13 @@ def oracles(shape, res, ix):
     try:
         ref = reference(shape, tl, ix)
     except (KeyError, IndexError) as e:
+        asked = set(x[1] for x in tl if x[0] == 'find')
+        reported = set(x[2] for x in tl if x[0] == 'ev' and len(x) >= 4 and x[1] in ('Step', 'Background') and x[3] in ('Passed', 'Failed'))
+        unasked = sorted(n_ for n_ in reported if n_ not in asked)
+        if isinstance(e, KeyError) and unasked:
+            # a step got a result although the collection was never asked about THIS step: a resolution was reused
+            out['canonical-event-sequence'] = 'step %s was resolved without consulting the step collection for it (the resolution of another step was reused)' % unasked
+            return out
         out['reference-applicable'] = 'the run made choices the specification would not make: %r' % (e,)
         return out
     got_ev = [e for e in tl if e[0] == 'ev']
@@ -457,4 +516,6 @@ def oracles(shape, res, ix):
                 if says_retried != nt[0][2]:
                     bad.append('%s carries retries %s but the attempt is %s' % (e[:4], e[4], 'retried' if nt[0][2] else 'final'))
     out['failed-events-say-retried-iff-the-attempt-is-retried'] = '; '.join(bad) if bad else None
+    if getattr(shape, 'delay', False):
+        out['retry-delay-counted-from-the-end-of-the-attempt'] = res.get('deadline_err')
     return out
